@@ -39,7 +39,7 @@ func (c09) Gen(rng *rand.Rand, tier string, idx int) Case {
 	arity := []int{0, 1, 1, 2, 2, 3}[rng.Intn(6)]
 	c.Cfg = append(c.Cfg, []string{"mode", mode}, []string{"arity", strconv.Itoa(arity)}, []string{"n", strconv.Itoa(n)})
 	// 1–5 keys; the pool is C04's collision-prone one (shifted / NULL siblings)
-	pool := tuplePool(rng, arity, 1+rng.Intn(3))
+	pool := c04TuplePool(rng, arity, 1+rng.Intn(3))
 	if len(pool) > 5 {
 		rng.Shuffle(len(pool), func(i, j int) { pool[i], pool[j] = pool[j], pool[i] })
 		pool = pool[:5]
@@ -120,7 +120,7 @@ func (w *c09win) drain() {
 // per-key buffer or in a batch received from OutputChan. The condition is exact and monotone; no result
 // is derived from how long it took.
 func (w *c09win) barrier() bool {
-	deadline := time.Now().Add(barrierDeadline())
+	deadline := time.Now().Add(c04BarrierDeadline())
 	for {
 		w.drain()
 		if window.VerifCountingBuffered(w.cw)+w.emitted == w.expected {
@@ -130,7 +130,7 @@ func (w *c09win) barrier() bool {
 			}
 		}
 		if time.Now().After(deadline) {
-			barrierFailed = true
+			c04BarrierFailed = true
 			return false
 		}
 		runtime.Gosched()
@@ -138,8 +138,37 @@ func (w *c09win) barrier() bool {
 	}
 }
 
+// c09Fields / c09Row: with cfg `nest 1` every GROUP BY column is the dotted path o.g<i> into a nested map
+// (the shape a joined table column has in an enriched row); otherwise the top-level field g<i>.
+func c09Fields(arity int, nest bool) []string {
+	f := c04GroupFields(arity)
+	if nest {
+		for i := range f {
+			f[i] = "o." + f[i]
+		}
+	}
+	return f
+}
+
+func c09Row(id int, toks []string, nest bool) map[string]interface{} {
+	row := c04Row(id, toks)
+	if !nest {
+		return row
+	}
+	inner := map[string]interface{}{}
+	for k, v := range row {
+		if k != "id" {
+			inner[k] = v
+			delete(row, k)
+		}
+	}
+	row["o"] = inner
+	return row
+}
+
 func c09Win(c Case, arity, n int) [][][]string {
-	cw, err := window.NewCountingWindow(types.WindowConfig{Params: []interface{}{n}, GroupByKeys: groupFields(arity)})
+	nest := c04CfgVal(c, "nest", "0") == "1"
+	cw, err := window.NewCountingWindow(types.WindowConfig{Params: []interface{}{n}, GroupByKeys: c09Fields(arity, nest)})
 	if err != nil {
 		return [][][]string{{{"ctor-error", hx(err.Error())}}}
 	}
@@ -151,7 +180,7 @@ func c09Win(c Case, arity, n int) [][][]string {
 		switch op[0] {
 		case "row":
 			id, _ := strconv.Atoi(op[1])
-			cw.Add(c04Row(id, op[2:]))
+			cw.Add(c09Row(id, op[2:], nest))
 			w.expected++
 			out = append(out, nil)
 		case "reap":
@@ -180,7 +209,8 @@ func c09Win(c Case, arity, n int) [][][]string {
 // ---- sql mode -----------------------------------------------------------------------------------
 
 func c09SQL(c Case, arity, n int) [][][]string {
-	gf := groupFields(arity)
+	nest := c04CfgVal(c, "nest", "0") == "1"
+	gf := c09Fields(arity, nest)
 	sel := append(append([]string(nil), gf...), "count(*) AS c", "collect(id) AS ids", "first_value(id) AS f", "last_value(id) AS l")
 	sql := "SELECT " + strings.Join(sel, ", ") + " FROM stream GROUP BY " + strings.Join(append(append([]string(nil), gf...), fmt.Sprintf("CountingWindow(%d)", n)), ", ")
 	s := streamsql.New(streamsql.WithDiscardLog())
@@ -199,20 +229,20 @@ func c09SQL(c Case, arity, n int) [][][]string {
 		switch op[0] {
 		case "row":
 			id, _ := strconv.Atoi(op[1])
-			s.Emit(c04Row(id, op[2:]))
+			s.Emit(c09Row(id, op[2:], nest))
 			out = append(out, nil)
 		case "flush":
 			// sentinel rows (ids -1…-n, own key tuple): FIFO all the way to the synchronous sink
 			for i := 1; i <= n; i++ {
-				row := map[string]interface{}{"id": -i}
-				for _, f := range gf {
-					row[f] = "~sentinel~"
+				st := make([]string, arity)
+				for j := range st {
+					st[j] = c04ValTok("~sentinel~", true)
 				}
-				s.Emit(row)
+				s.Emit(c09Row(-i, st, nest))
 			}
 			var lines [][]string
 			d := 0
-			deadline := time.After(barrierDeadline())
+			deadline := time.After(c04BarrierDeadline())
 		wait:
 			for {
 				select {
@@ -220,24 +250,24 @@ func c09SQL(c Case, arity, n int) [][][]string {
 					done := false
 					var ls [][]string
 					for _, r := range b {
-						if hasSentinel(r) {
+						if c04HasSentinel(r) {
 							done = true
 						}
-						if !hasNegativeID(r) {
-							l := append([]string{"d", strconv.Itoa(d)}, resultLine(r, gf)...)
+						if !c04HasNegativeID(r) {
+							l := append([]string{"d", strconv.Itoa(d)}, c04ResultLine(r, gf)...)
 							l = append(l, "f", fmt.Sprint(r["f"]), "l", fmt.Sprint(r["l"]))
 							ls = append(ls, l)
 						}
 					}
 					if len(ls) > 0 {
-						lines = append(lines, sortLines(ls)...)
+						lines = append(lines, c04SortLines(ls)...)
 						d++
 					}
 					if done {
 						break wait
 					}
 				case <-deadline:
-					barrierFailed = true
+					c04BarrierFailed = true
 					lines = append(lines, []string{"sentinel-lost"})
 					break wait
 				}
@@ -251,9 +281,9 @@ func c09SQL(c Case, arity, n int) [][][]string {
 }
 
 func (c09) Exec(c Case) [][][]string {
-	arity, _ := strconv.Atoi(cfgVal(c, "arity", "0"))
-	n, _ := strconv.Atoi(cfgVal(c, "n", "1"))
-	if cfgVal(c, "mode", "win") == "sql" {
+	arity, _ := strconv.Atoi(c04CfgVal(c, "arity", "0"))
+	n, _ := strconv.Atoi(c04CfgVal(c, "n", "1"))
+	if c04CfgVal(c, "mode", "win") == "sql" {
 		return c09SQL(c, arity, n)
 	}
 	return c09Win(c, arity, n)
